@@ -113,7 +113,7 @@ def check(ctx, run):
             if len(cash_calls) != nt:
                 problems.append(f"{len(cash_calls)} cash evaluations")
             for k, e in ev:
-                if k == "simulate" and not e.get("fn", "").startswith("pfhedge.instruments"):   # the hedger's own request, from whichever helper
+                if k == "simulate" and not (e.get("fn") or "").startswith("pfhedge.instruments"):   # the hedger's own request, from whichever helper
                     kw = dict(e["kwargs"])
                     for kk, vv in zip(("n_paths", "init_state"), e["args"]):
                         kw[kk] = vv
@@ -231,7 +231,7 @@ def default_search_rule(ctx, run, dfi):
             except (NotImplementedError, TypeError, Unknown, ShapeError) as ex:
                 problems.append(f"{nm} end {str(end)[:60]} is not a reduction of input - target ({ex})")
         # (c) evaluations of the criterion inside the search
-        inner = [c_ for r in res for c_ in r["events"] if not c_.get("fn", "").endswith("HedgeLoss.cash") and c_.get("recv") is o
+        inner = [c_ for r in res for c_ in r["events"] if not (c_.get("fn") or "").endswith("HedgeLoss.cash") and c_.get("recv") is o
                  and (c_["kind"] == "module_call" or (c_["kind"] == "call" and c_["callee"].endswith((".forward", ".__call__"))))]
         if not inner:
             problems.append("the criterion is never evaluated inside the search")
